@@ -1229,6 +1229,8 @@ fn c12(a: &Args) -> Report {
         Op::TryClose,
         Op::Fsync,
         Op::Rst,
+        Op::KillRst,
+        Op::KillRstLazy,
     ];
     let mut specs = Vec::new();
     for md in [Some(0u64), Some(1), Some(64), Some(10_000), None] {
